@@ -1000,6 +1000,12 @@ func checkN78(c *Ctx, pr *prioRoles) {
 				continue
 			}
 			seen[cal] = true
+			// the same for-all spelled with the standard helper:
+			//   return !slices.ContainsFunc(list, func(p uint) bool { return tactic[p] == 0 })
+			if okCF, whyCF, isCF := p.filledByContainsFunc(cal); isCF {
+				c.R.Check(okCF, "N7", p.FnKey(cal), p.Pos(cal.Pos()), "for-all listed priorities: tactic != 0 (!slices.ContainsFunc(list, tactic[p] == 0))", "the allotment-filled predicate is not 'every listed priority has a non-zero allotment' ("+whyCF+")")
+				continue
+			}
 			ok7 := true
 			why := ""
 			comps := sccs(cal.Blocks, blockSet(cal.Blocks))
@@ -1109,4 +1115,73 @@ func checkN78(c *Ctx, pr *prioRoles) {
 			}
 		}
 	}
+}
+
+// filledByContainsFunc: fn is `return !slices.ContainsFunc(<its list parameter>, pred)` with
+// pred(p) = tactic[p] == 0.
+func (p *Prog) filledByContainsFunc(fn *ssa.Function) (ok bool, why string, is bool) {
+	var call *ssa.Call
+	for _, b := range fn.Blocks {
+		for _, in := range b.Instrs {
+			if c2, isCall := in.(*ssa.Call); isCall {
+				if cal := p.Callee(c2); cal != nil {
+					name := p.funcDisplay(cal)
+					if i := strings.Index(name, "["); i >= 0 {
+						name = name[:i]
+					}
+					if name == "slices.ContainsFunc" {
+						call = c2
+					}
+				}
+			}
+		}
+	}
+	if call == nil {
+		return false, "", false
+	}
+	if len(fn.Blocks) != 1 {
+		return false, "the helper does more than evaluate slices.ContainsFunc", true
+	}
+	ret, isRet := fn.Blocks[0].Instrs[len(fn.Blocks[0].Instrs)-1].(*ssa.Return)
+	if !isRet || len(ret.Results) != 1 {
+		return false, "no single result", true
+	}
+	base, neg := condOf(ret.Results[0])
+	if base != ssa.Value(call) || !neg {
+		return false, "the result is not the negation of ContainsFunc", true
+	}
+	if par, isPar := stripChangeType(call.Call.Args[0]).(*ssa.Parameter); !isPar || par.Parent() != fn {
+		return false, "ContainsFunc does not range over the listed priorities", true
+	}
+	var pred *ssa.Function
+	switch f := call.Call.Args[1].(type) {
+	case *ssa.MakeClosure:
+		pred, _ = f.Fn.(*ssa.Function)
+	case *ssa.Function:
+		pred = f
+	}
+	if pred == nil || len(pred.Params) != 1 || len(pred.Blocks) != 1 {
+		return false, "the element predicate is not a simple function", true
+	}
+	pret, isRet := pred.Blocks[0].Instrs[len(pred.Blocks[0].Instrs)-1].(*ssa.Return)
+	if !isRet || len(pret.Results) != 1 {
+		return false, "the element predicate has no single result", true
+	}
+	cm := p.NormCmp(pret.Results[0], true)
+	if cm == nil || cm.LC != 0 || cm.RC != 0 || !(cm.Op == token.EQL || cm.Op == token.LEQ) {
+		return false, "the element predicate is not tactic[p] == 0", true
+	}
+	l, r := deepStrip(cm.L), deepStrip(cm.R)
+	if r.String() != "0" {
+		l, r = r, l
+	}
+	if r.String() != "0" || l.Op != "index" {
+		return false, "the element predicate is not tactic[p] == 0", true
+	}
+	_, path, okp := l.Args[0].FieldPath()
+	key := l.Args[1].StripInst()
+	if !okp || path[len(path)-1] != "tactic" || key.V != ssa.Value(pred.Params[0]) {
+		return false, "the element predicate is not tactic[p] == 0 for the visited priority", true
+	}
+	return true, "", true
 }
